@@ -463,7 +463,7 @@ PROPS["C09"] = {
     "level": "model_checking", "engine": "kani+mir-smt", "mir": True,
     "technique": "bounded model checking (Kani/CBMC) of the parser kernels on arbitrary buffers; Kani's panic / overflow / "
                  "bounds checks are the assertion",
-    "claim": "Untrusted input modelled as an arbitrary buffer: the cell decoder, reference decoder and bit-field decoder "
+    "claim": "Engine M: PropertyValue::read returns a value or an error for every type tag, length field and reader behaviour (string loop unrolled to 2 bytes): no overflow, index or unwrap panic. Kani: Untrusted input modelled as an arbitrary buffer: the cell decoder, reference decoder and bit-field decoder "
              "(all inputs), the pool header reader (any <=14 bytes), build_from_data on short data, and the pool's read "
              "accessors on foreign states (any counts, any reference 1..0xFFFFFF) return a value or an error, never "
              "panic. Pool mutators on foreign states panic in two known regions (recorded as known findings, witnessed on "
